@@ -406,11 +406,30 @@ EXTRA9 = {
 }
 
 
+EXTRA10 = {
+    'C01': ' Round 14: after a NAK the buffer of the repeated part is the one cleared (C01.R23).',
+    'C03': ' Round 14: every lock counter value in the lost-arbitration case is positive (C03.R5); setState returns its result '
+           'parameter untouched (C03.R24).',
+    'C04': ' Round 14: a loop that drains a queue pushes nothing back into it (C04.R16).',
+    'C05': ' Round 14: zero-means-missing tied to the REZ flag (C05.R18); divisors combined only for a requested divisor other than 1 '
+           '(C05.R19).',
+    'C06': ' Round 14: every OK return of checkValueRange stored the sign (C06.R18).',
+    'C07': ' Round 14: no OK return of checkValueRange for a value that is not finite (C07.R14).',
+    'C09': ' Round 14: maximum ID length bookkeeping of MessageMap::add (C09.R20).',
+    'C11': ' Round 14: getMasterNumber evaluated for all 256 addresses (C11.R10).',
+    'C14': ' Round 14: the transport hands out the buffered length (C14.R21); as_error only with an arbitration requested (C14.R22).',
+    'C16': ' Round 14: getLevels makes a second lookup only for an unknown user (C16.R15).',
+    'C18': ' Round 14: a search with something else than the next template constant is reported (C18.R5).',
+    'C19': ' Round 14: a searched position is a substr length only for a piece that starts at 0 (C19.R15).',
+    'C20': ' Round 14: draining loops end (C20.R31); MessageMap::add is all-or-nothing (C20.R32).',
+}
+
+
 def main():
     checks = []
     for pid in sorted(CHECKS):
         c = dict(CHECKS[pid])
-        c['text'] = c['text'] + EXTRA.get(pid, '') + EXTRA2.get(pid, '') + EXTRA3.get(pid, '') + EXTRA4.get(pid, '') + EXTRA5.get(pid, '') + EXTRA6.get(pid, '') + EXTRA7.get(pid, '') + EXTRA8.get(pid, '') + EXTRA9.get(pid, '')
+        c['text'] = c['text'] + EXTRA.get(pid, '') + EXTRA2.get(pid, '') + EXTRA3.get(pid, '') + EXTRA4.get(pid, '') + EXTRA5.get(pid, '') + EXTRA6.get(pid, '') + EXTRA7.get(pid, '') + EXTRA8.get(pid, '') + EXTRA9.get(pid, '') + EXTRA10.get(pid, '')
         if pid in ('C01', 'C02', 'C03', 'C05', 'C06', 'C07', 'C08', 'C09', 'C10', 'C11', 'C13', 'C14', 'C15', 'C19', 'C20'):
             c['technique'] += '; finite evaluation of inline accessors / conditions from the typed AST on enumerated model states'
         checks.append({
